@@ -36,10 +36,10 @@ def c18(ctx):
     # (programs, preemption bound, cap on schedules, full: EVERY lock and unlock callback is a scheduling point)
     combos = [("g,g", 1, 4000, True), ("A,B", 1, 3000, False), ("A,E", 1, 4000, False), ("C,A", 1, 3000, False),
               ("B,D", 2, 1000, False), ("s,f", 2, 1500, False), ("a,b,d", 1, 1000, False)] if quick else \
-             [("g,g", 1, 10000, True), ("h,o", 1, 20000, True), ("g,h", 1, 20000, True), ("g,g", 2, 30000, True),
-              ("A,B", 2, 30000, False), ("A,E", 2, 30000, False), ("A,A", 2, 20000, False), ("B,D", 2, 20000, False),
-              ("C,A", 2, 20000, False), ("B,B", 2, 10000, False), ("E,B", 2, 10000, False), ("s,f", 2, 20000, False),
-              ("a,b,d", 2, 20000, False), ("a,a,b", 2, 20000, False)]
+             [("g,g", 1, 10000, True), ("h,o", 1, 20000, True), ("g,h", 1, 20000, True), ("g,g", 2, 10000, True),
+              ("A,B", 2, 10000, False), ("A,E", 2, 10000, False), ("A,A", 2, 8000, False), ("B,D", 2, 8000, False),
+              ("C,A", 2, 8000, False), ("B,B", 2, 5000, False), ("E,B", 2, 5000, False), ("s,f", 2, 8000, False),
+              ("a,b,d", 2, 8000, False), ("a,a,b", 2, 8000, False)]
     tot = dict(states=0, transitions=0, schedules=0, paths_total=0, executions=0, accepted=0, events=0, devlog=[], lock_points={},
                calls={})
     for progs, maxpre, cap, full in combos:
@@ -79,14 +79,14 @@ def c18(ctx):
             c2[1] += v2[1]
     # (c) free-running threads with OS locking (stress): 8 and 16 threads
     free = dict(executions=0, accepted=0, events=0)
-    for progs, rounds in ([("a,b,d,a,b,d,a,b", 300), ("A,B,C,D,E,A,B,C,D,E,A,B,C,D,E,A", 150)] if quick else
+    for fi, (progs, rounds) in enumerate([("a,b,d,a,b,d,a,b", 300), ("A,B,C,D,E,A,B,C,D,E,A,B,C,D,E,A", 150)] if quick else
                           [("a,b,d,a,b,d,a,b", 1500), ("A,B,C,D,E,A,B,C,D,E,A,B,C,D,E,A", 600), ("a,a,a,a,a,a,a,a", 1500),
                            ("B,B,B,B,D,D,D,D", 600)]):
         if ctx.violations:
             break
         # the behaviours are only chunk markers: each driver process runs `per` free executions
         per = max(1, rounds // 15)
-        st = pipeline.replay_validate(ctx, "c18-free-%d" % (progs.count(",") + 1) + progs[:1], "vf.drv_conc",
+        st = pipeline.replay_validate(ctx, "c18-free%d-%d" % (fi, progs.count(",") + 1), "vf.drv_conc",
                                       [lib, "free", progs, str(per)], [["free"]] * 15, "Trace_Conc", tc, jobs=15,
                                       max_rej_per_chunk=1, max_confirm=3, rerun=False)
         # a free-running rejection cannot be re-run deterministically: the recorded trace itself is the evidence
